@@ -120,11 +120,27 @@ def run(ctx):
     for bi, t in inserts:
         key = P.strip(pr.operand(t["args"][1]))
         val = P.strip(P.narrow_variants(pr.operand(t["args"][2])))
-        if not (key[0] == "agg" and key[1].startswith("adt:" + RANK_PAIR + "::")):
+        # the key is a rank pair literal, or the item of a loop over a literal array of them (`for rp in [Suited(h, k),
+        # Ofsuit(h, k)]`): every guard below is then established for the symbolic item, i.e. for each element alike
+        case_loop = None
+        if key[0] == "agg" and key[1].startswith("adt:" + RANK_PAIR + "::"):
+            elems = [key]
+        else:
+            elems = None
+            for lp in fl:
+                if bi in lp.body and any(x == lp.item_term for x in P.walk(key)):
+                    src_, chain_ = lp.chain()
+                    src_ = P.strip(src_, calls=False)
+                    if src_[0] == "agg" and src_[1] == "array" and len(chain_) == 1 and chain_[0].rsplit("::", 1)[-1] == "into_iter":
+                        # the key of each case: the item (or a component of it) with the array element put in its place
+                        es = [P.strip(P.subst(key, lp.item_term, e)) for e in src_[2]]
+                        if es and all(e[0] == "agg" and e[1].startswith("adt:" + RANK_PAIR + "::") for e in es):
+                            elems, case_loop, case_items = es, lp, list(src_[2])
+        if elems is None:
             ctx.violation(rule, f"{fn.path}|insert-key", f"inserted key is not a rank pair literal: {P.show(key)[:60]}", fn=fn.path, file=fn.file, line=fn.blocks[bi]["line"])
             continue
-        V = key[1].rsplit("::", 1)[-1]
-        ranks = [P.strip(o) for o in key[2]]
+        V = "/".join(e[1].rsplit("::", 1)[-1] for e in elems)
+        ranks = [P.strip(o) for o in elems[0][2]]
         problems = []
         # guards: the probe combo is present (contains_key(map, &probe), or get(map, &probe) tested for Some) and
         # all(into_iter(key), closure) holds
@@ -173,22 +189,45 @@ def run(ctx):
             if weight is None:
                 problems.append(f"the reported weight is not the probe combo's weight: {P.show(val)[:60]}")
             # probe membership
-            if not (probe[0] == "call" and probe[1] == CARD_PAIR + "::new"):
+            nprobe = P.strip(P.narrow_deep(probe))
+            own_first = (nprobe[0] == "field" and nprobe[1][0] == "variant" and nprobe[1][2] == "Some" and nprobe[1][1][0] == "call"
+                         and nprobe[1][1][1].endswith("::next") and len(nprobe[1][1][2]) == 1)
+            if own_first:
+                it_ = P.strip(nprobe[1][1][2][0], calls=False)
+                own_first = it_[0] == "call" and it_[1] == f"<{RANK_PAIR} as std::iter::IntoIterator>::into_iter" and P.strip(it_[2][0]) == key
+            if own_first:
+                # the probe is the first combo of the reported pair's own iterator: a member of its table by construction.
+                # Nothing else may be taken from that iterator before all() runs over it
+                it_term = P.strip(nprobe[1][1][2][0], calls=False)
+                takers = []
+                for cb, ct in fn.calls():
+                    if cb not in fn.cfg.reachable or not ct["args"]:
+                        continue
+                    if P.strip(pr.operand(ct["args"][0]), calls=False) == it_term and I.callee_path(ct) != it_term[1]:
+                        takers.append(ct["callee"].get("name"))
+                if sorted(takers) not in (["next"], ["all", "next"]):
+                    problems.append(f"the pair's iterator is consumed by {sorted(takers)} before/besides the probe and all()")
+            elif not (probe[0] == "call" and probe[1] == CARD_PAIR + "::new"):
                 problems.append("probe is not CardPair::new(..)")
             else:
-                cards = []
-                for c in probe[2]:
-                    c = P.strip(c)
-                    if c[0] == "call" and c[1] == CARD + "::new":
-                        rk = P.strip(c[2][0])
-                        cards.append((ranks.index(rk) if rk in ranks else None, variant_of(c[2][1])))
-                    else:
-                        cards.append((None, None))
-                combo = tuple(cards)
-                table = exp[V]
-                member = combo in table or (V == "Pocket" and tuple(sorted(combo, key=str)) in [tuple(sorted(x, key=str)) for x in table])
-                if not member:
-                    problems.append(f"probe combo {combo} is not one of the {len(table)} combos of {V}")
+                # one membership obligation per case (a single one for a literal key)
+                for ci, e_key in enumerate(elems):
+                    probe_c = probe if case_loop is None else P.strip(P.subst(probe, case_loop.item_term, case_items[ci]))
+                    V_c = e_key[1].rsplit("::", 1)[-1]
+                    ranks_c = [P.strip(o) for o in e_key[2]]
+                    cards = []
+                    for c in probe_c[2]:
+                        c = P.strip(c)
+                        if c[0] == "call" and c[1] == CARD + "::new":
+                            rk = P.strip(c[2][0])
+                            cards.append((ranks_c.index(rk) if rk in ranks_c else None, variant_of(c[2][1])))
+                        else:
+                            cards.append((None, None))
+                    combo = tuple(cards)
+                    table = exp[V_c]
+                    member = combo in table or (V_c == "Pocket" and tuple(sorted(combo, key=str)) in [tuple(sorted(x, key=str)) for x in table])
+                    if not member:
+                        problems.append(f"probe combo {combo} is not one of the {len(table)} combos of {V_c}")
         if all_call is not None:
             src = P.strip(all_call[2][0], calls=False)
             if not (src[0] == "call" and src[1] == f"<{RANK_PAIR} as std::iter::IntoIterator>::into_iter" and P.strip(src[2][0]) == key):
@@ -203,7 +242,7 @@ def run(ctx):
         else:
             ctx.ok(rule, {"variant": V, "probe": "member of its table", "all": "over the same pair, == probe weight", "reported": "probe weight"}, sample=True)
         # domain
-        loops_here = sorted([lp for lp in fl if bi in lp.body], key=lambda lp: len(lp.body), reverse=True)
+        loops_here = sorted([lp for lp in fl if bi in lp.body and lp is not case_loop], key=lambda lp: len(lp.body), reverse=True)
 
         def range_of(lp):
             t_ = P.strip(lp.iter_term, calls=False)
@@ -221,10 +260,13 @@ def run(ctx):
                     return None
             return None
         dom_ok = False
-        if V == "Pocket" and len(loops_here) == 1:
+        Vs = [e[1].rsplit("::", 1)[-1] for e in elems]
+        if any([P.strip(o) for o in e[2]] != ranks for e in elems):
+            dom_ok = False
+        elif Vs == ["Pocket"] and len(loops_here) == 1:
             r = range_of(loops_here[0])
             dom_ok = r is not None and r[1].endswith("::all") and ranks == [P.strip(loops_here[0].item_term)]
-        elif V in ("Suited", "Ofsuit") and len(loops_here) == 2:
+        elif all(v in ("Suited", "Ofsuit") for v in Vs) and len(loops_here) == 2:
             ro, ri = range_of(loops_here[0]), range_of(loops_here[1])
             ho, ki = P.strip(loops_here[0].item_term), P.strip(loops_here[1].item_term)
             if ro is not None and ri is not None and ro[1].endswith("::inclusive") and ri[1].endswith("::inclusive"):
@@ -238,7 +280,8 @@ def run(ctx):
         else:
             ctx.violation(rule_d, f"{fn.path}|{V}-domain", f"the loops around the {V} report do not cover every rank pair of that kind",
                           fn=fn.path, file=fn.file, line=fn.blocks[bi]["line"])
-        seen_variants[V] = True
+        for v in Vs:
+            seen_variants[v] = True
     for V in ("Pocket", "Suited", "Ofsuit"):
         if V not in seen_variants:
             ctx.violation(rule, f"{fn.path}|{V}-never-reported", f"rank_pairs() never reports a {V} rank pair", fn=fn.path, file=fn.file, line=fn.line)
